@@ -2162,3 +2162,430 @@ def _c09_shrink(self, case):
 
 C09.shrink_candidates = _c09_shrink
 E.register(C09())
+
+
+# ---------------------------------------------------------------------------------------
+class C15(ProverCheck):
+    name = "C15"
+    prop = "C15"
+    budget = {"quick": 1500, "thorough": 60000}
+    components = REAL_TRACE
+    rule = ("read/write histories (<= 8 operations) on 1-D (<= 5) and 2-D (<= 4x3) arrays of constants and "
+            "secrets with public and secret indices inside and outside the bounds, tuple and chained indexing; "
+            "reference model = Python lists executed from the same generated source (strict bounds for secret "
+            "indices); after every operation all arrays and read results must equal the model's; same "
+            "exception class at the same statement (IndexError for an out-of-range secret index, TypeError for "
+            "assignment through a row view); a twin run on other in-range index values must emit the identical "
+            "constraint system; with the Python check removed an out-of-range secret index must be unsatisfiable "
+            "even for a lying prover; lies on hint wires cannot move a value read. non-trivial = distinct "
+            "histories containing at least one secret-index access that was compared")
+
+    def cfg(self, rng):
+        return {"backend": rng.choice(W.DICT_BACKENDS), "bitlength": rng.choice([4, 6, 8]), "resolution": 2,
+                "value_bias": "tiny", "max_nesting": 0, "p_try": 1.0, "fxp": False}
+
+    def gen(self, rng, i, tier):
+        cfg = self.cfg(rng)
+        two_d = rng.random() < 0.4
+        n = rng.randrange(1, 6) if not two_d else rng.randrange(1, 5)
+        m = rng.randrange(1, 4)
+        # inputs: index inputs first (secret), then some element values
+        n_ix = rng.randrange(1, 4)
+        oob = rng.random() < 0.25
+        inputs, alt = [], []
+
+        def ixval(lim):
+            if oob and rng.random() < 0.4:
+                return rng.choice([lim, lim + 1, -1, -2, lim + 5])
+            return rng.randrange(0, lim)
+        dims = [n, m] if two_d else [n]
+        ix_dim = []
+        for j in range(n_ix):
+            d = rng.randrange(len(dims))
+            ix_dim.append(d)
+            inputs.append({"kind": "priv", "t": "I", "v": ixval(dims[d])})
+            alt.append(rng.randrange(0, dims[d]))
+        n_el = rng.randrange(1, 4)
+        for j in range(n_el):
+            v = rng.choice([0, 1, 2, 3, 5, -1, 7])
+            inputs.append({"kind": rng.choice(["priv", "pub"]), "t": "I", "v": v})
+            alt.append(v)
+
+        def elem():
+            if rng.random() < 0.5:
+                return {"ref": n_ix + rng.randrange(n_el), "t": "I"}
+            return {"k": rng.choice([0, 1, 2, 3, 4, 9, -3])}
+
+        def index(d):
+            cands = [j for j in range(n_ix) if ix_dim[j] == d]
+            if cands and rng.random() < 0.7:
+                return {"ref": rng.choice(cands), "t": "I"}
+            return {"k": rng.randrange(0, dims[d])}
+        if two_d:
+            body = [{"s": "array", "rows": [[elem() for _ in range(m)] for _ in range(n)]}]
+        else:
+            body = [{"s": "array", "els": [elem() for _ in range(n)]}]
+        for _ in range(rng.randrange(1, 9)):
+            ix = [index(d) for d in range(len(dims))]
+            chained = two_d and rng.random() < 0.25
+            if rng.random() < 0.5:
+                body.append({"s": "let", "e": {"call": "aget", "arr": 0, "ix": ix, "chained": chained, "t": "I"},
+                             "try": True})
+            else:
+                body.append({"s": "aset", "arr": 0, "ix": ix, "chained": chained, "value": elem(), "try": True})
+        plan = {"cfg": cfg, "inputs": inputs, "body": body}
+        return {"plan": plan, "alt_inputs": alt, "n_ix": n_ix, "seed": rng.randrange(1 << 30)}
+
+    def run(self, case):
+        plan = case["plan"]
+        rng = _random.Random(case["seed"])
+        tr = T.TraceRun(plan, props=("C01",))
+        tr.want_snapshots = True
+        tr.run()
+        snaps = []
+        n_out, _, n_src = T.run_native(plan, snapshots=snaps)
+        n_caught = list(T.run_native.last_caught)
+        viol, probes, faults = [], {}, {}
+
+        def add(oracle, site, detail):
+            if not any(v["oracle"] == oracle and v["site"] == site for v in viol):
+                viol.append({"property": "C15", "oracle": oracle, "site": site, "detail": detail})
+        for v in tr.violations:
+            if v["property"] == "C01":
+                add("unsat_constraint", {"op": v["site"].get("op")}, v["detail"])
+        secret_access = any(isinstance(s.get("ix") or (s.get("e") or {}).get("ix"), list) and
+                            any("ref" in i for i in (s.get("ix") or s["e"]["ix"])) for s in plan["body"][1:])
+        t_caught = [(s, c) for (s, c, _) in tr.caught]
+        if tr.outcome != "completed" or n_out != "completed":
+            raise W.HarnessError("array history did not complete: %s / %s %s" % (tr.outcome, n_out, tr.outcome_msg))
+        # statement-by-statement comparison
+        ok = True
+        for (k1, s1), (k2, s2) in zip(tr.snapshots, snaps):
+            if s1 != s2:
+                info = tr.gen.sites.get(k1, {})
+                d = dict(info.get("desc") or {"op": info.get("kind")})
+                diff = {nm: (s1.get(nm), s2.get(nm)) for nm in set(s1) | set(s2) if s1.get(nm) != s2.get(nm)}
+                add("twin_value_differs", {"op": d.get("op")}, "after site %d (traced, list model): %r" % (k1, diff))
+                ok = False
+                break
+        if t_caught != n_caught:
+            k = next((i for i, (a, b) in enumerate(zip(t_caught, n_caught)) if a != b), min(len(t_caught), len(n_caught)))
+            a = t_caught[k] if k < len(t_caught) else None
+            b = n_caught[k] if k < len(n_caught) else None
+            site = (a or b)[0]
+            d = tr.gen.sites.get(site, {}).get("desc") or {}
+            add("twin_error_differs", {"op": d.get("op"), "traced": a and a[1], "model": b and b[1]},
+                "traced caught %r, list model caught %r" % (a, b))
+            ok = False
+        nt = P.plan_digest(plan) if secret_access else None
+        if tr.caught:
+            probes["history_with_rejected_access"] = 1
+        if ok and not tr.caught:
+            # twin on other in-range index values: identical constraint system
+            alt = list(case["alt_inputs"])
+            tr2 = T.TraceRun(plan, inputs=alt, props=()).run()
+            if tr2.outcome == "completed" and not tr2.caught:
+                d = segment_diff(tr, tr2)
+                if d is not None:
+                    info = tr.gen.sites.get(d[0], {})
+                    add("structure_differs", {"op": (info.get("desc") or {}).get("op")}, "site %d: %s" % d)
+                probes["index_twin_compared"] = 1
+            # lying prover on the values read
+            trace = PV.Trace(tr)
+            if not trace.unsat(trace.base_assignment()) and trace.hints and len(trace.cons) < 400:
+                atk = PV.Attack(trace, PV.plan_consts(plan))
+                for lies, v, a, rep in atk.search(rng, plan["cfg"]["bitlength"], 500, pairs=False):
+                    s = {"op": v[1]["desc"].get("op"), "lie_scale": atk.lie_scale(a, plan["cfg"]["bitlength"])}
+                    add("second_assignment", s, "lies %r move %s" % (lies, v[1]["name"]))
+                    break
+                faults["lie-wire"] = atk.evals
+        elif tr.caught and any(c == "IndexError" for (_, c) in t_caught):
+            # out-of-range secret index: must also be unprovable with the Python check removed
+            d = PV.run_plan(plan, nocheck=True)
+            if d.outcome == "completed" and not d.caught:
+                t = PV.Trace(d)
+                atk = PV.Attack(t, PV.plan_consts(plan))
+                faults["nocheck"] = 1
+                if not t.unsat(atk.base):
+                    add("out_of_range_index_provable", {"mode": "honest-hints"},
+                        "out-of-range secret index: hints computed with checks off satisfy all constraints")
+                else:
+                    found = PV.search_sat(atk, rng, plan["cfg"]["bitlength"], budget=200)
+                    faults["lie-wire"] = atk.evals + atk.repairs
+                    if found is not None:
+                        add("out_of_range_index_provable", {"mode": "wire"}, "lies %r satisfy the circuit" % (found[0],))
+            else:
+                probes["nocheck_run_raised"] = 1
+        res = self.result(tr, case, [])
+        res["violations"] = viol
+        res["nontrivial"] = nt
+        res["faults"] = faults
+        res["probes"] = probes
+        res["digest"] = E.sha((res["digest"], snaps[-1] if snaps else None, n_caught))
+        return res
+
+    def shrink_candidates(self, case):
+        for c in P.shrink_plan_candidates(case):
+            if c["plan"]["body"] and c["plan"]["body"][0].get("s") == "array" and len(c["plan"]["inputs"]) == len(case["plan"]["inputs"]):
+                yield c
+
+
+E.register(C15())
+
+
+# ---------------------------------------------------------------------------------------
+class C17(TraceCheck):
+    name = "C17"
+    prop = "C17"
+    props = ("C01",)
+    budget = {"quick": 1500, "thorough": 60000}
+    rule = ("1-4 @snark-wrapped calls per run; argument structures of depth <= 3 and <= 8 leaves built from "
+            "lists, tuples and dicts over int, bool, float and pass-through secret leaves; results are "
+            "structures over secret integer / boolean / fixed-point expressions of the leaves, pass-through "
+            "leaves and plain constants; some calls pass a keyword argument. oracle on the recorder's ordered "
+            "log of public allocations during each call: exactly the numeric argument leaves in traversal "
+            "order (ints as is, bools as 0/1, floats scaled), then exactly the secret result leaves in "
+            "traversal order; the returned plain structure equals the undecorated function run on plain "
+            "values (native twin); kwargs => ValueError; fault injection on the assignment: changing one "
+            "output's public value alone must violate some constraint. non-trivial = distinct (argument "
+            "structure, result structure) pairs whose call completed")
+
+    def cfg(self, rng):
+        return {"backend": rng.choice(W.DICT_BACKENDS), "bitlength": rng.choice([8, 16]),
+                "resolution": rng.choice([2, 4, 8]), "p_try": 1.0, "fxp": True}
+
+    def gen_struct(self, rng, depth, leaves, budget):
+        u = rng.random()
+        if depth <= 0 or u < 0.45 or budget[0] <= 1:
+            budget[0] -= 1
+            k = rng.random()
+            if k < 0.4:
+                leaf = {"k": rng.choice([0, 1, 2, 3, 5, -2, 7]), "lt": "I"}
+            elif k < 0.6:
+                leaf = {"k": rng.random() < 0.5, "lt": "B"}
+            elif k < 0.8:
+                leaf = {"k": rng.choice([0.5, 1.5, -2.25, 3.0, 0.0, 4.75]), "lt": "F"}
+            else:
+                leaf = {"ref": rng.randrange(0, 8), "t": "I", "lt": "S"}
+            leaves.append(leaf)
+            return leaf
+        kind = rng.choice(["list", "tuple", "dict"])
+        n = rng.randrange(1, 4)
+        if kind == "dict":
+            return {"struct": "dict", "items": [[rng.choice("abcdxyz") + str(j), self.gen_struct(rng, depth - 1, leaves, budget)]
+                                                for j in range(n)]}
+        return {"struct": kind, "items": [self.gen_struct(rng, depth - 1, leaves, budget) for _ in range(n)]}
+
+    def gen_ret_leaf(self, rng, leaves):
+        by = {"I": [], "B": [], "F": []}
+        for i, l in enumerate(leaves):
+            by["I" if l["lt"] in ("I", "S") else l["lt"]].append(i)
+        u = rng.random()
+        if u < 0.12 or not leaves:
+            return {"k": rng.choice([0, 1, 42])}
+        if by["I"] and u < 0.55:
+            a = {"leaf": rng.choice(by["I"])}
+            k = rng.random()
+            if k < 0.3:
+                return a
+            if k < 0.6:
+                return {"op": rng.choice(["+", "-"]), "a": a, "b": {"leaf": rng.choice(by["I"])}}
+            if k < 0.8:
+                return {"op": "*", "a": a, "b": {"k": rng.choice([2, 3, -1])}}
+            return {"op": rng.choice(["<", "==", ">="]), "a": a, "b": {"leaf": rng.choice(by["I"])}}
+        if by["F"] and u < 0.8:
+            a = {"leaf": rng.choice(by["F"])}
+            if rng.random() < 0.4:
+                return a
+            return {"op": rng.choice(["+", "-"]), "a": a, "b": {"leaf": rng.choice(by["F"])}}
+        if by["B"]:
+            a = {"leaf": rng.choice(by["B"])}
+            if rng.random() < 0.5:
+                return a
+            return {"op": rng.choice(["&", "|", "^"]), "a": a, "b": {"leaf": rng.choice(by["B"])}}
+        return {"leaf": rng.randrange(len(leaves))}
+
+    def gen_ret(self, rng, depth, leaves, budget):
+        if depth <= 0 or rng.random() < 0.5 or budget[0] <= 1:
+            budget[0] -= 1
+            return self.gen_ret_leaf(rng, leaves)
+        kind = rng.choice(["list", "tuple", "dict"])
+        n = rng.randrange(1, 4)
+        if kind == "dict":
+            return {"struct": "dict", "items": [["r%d" % j, self.gen_ret(rng, depth - 1, leaves, budget)] for j in range(n)]}
+        return {"struct": kind, "items": [self.gen_ret(rng, depth - 1, leaves, budget) for _ in range(n)]}
+
+    def gen(self, rng, i, tier):
+        cfg = self.cfg(rng)
+        inputs = [{"kind": "priv", "t": "I", "v": rng.choice([0, 1, 2, 3, 4, 6])} for _ in range(rng.randrange(1, 3))]
+        body = []
+        for _ in range(rng.randrange(1, 5)):
+            leaves = []
+            budget = [8]
+            args = [self.gen_struct(rng, rng.choice([0, 1, 2, 3]), leaves, budget) for _ in range(rng.randrange(0, 4))]
+            ret = self.gen_ret(rng, rng.choice([0, 1, 2]), leaves, [6])
+            st = {"s": "snark_call", "args": args, "ret": ret, "try": True}
+            if rng.random() < 0.08:
+                st["kwargs"] = True
+            body.append(st)
+            if rng.random() < 0.3:
+                body.append({"s": "let", "e": {"op": "*", "a": {"ref": 0, "t": "I"}, "b": {"ref": 1, "t": "I"}, "t": "I"}})
+        return {"plan": {"cfg": cfg, "inputs": inputs, "body": body}}
+
+    def run(self, case):
+        plan = case["plan"]
+        tr = T.TraceRun(plan, props=("C01",)).run()
+        n_out, _, _ = T.run_native(plan)
+        n_calls = dict(T.run_native.last_calls)
+        n_caught = list(T.run_native.last_caught)
+        if tr.outcome != "completed" or n_out != "completed":
+            raise W.HarnessError("snark history did not complete: %s %s / %s" % (tr.outcome, tr.outcome_msg, n_out))
+        rec = tr.w.rec
+        res_scale = 1 << plan["cfg"]["resolution"]
+        viol, probes = [], {}
+
+        def add(oracle, site, detail):
+            if not any(v["oracle"] == oracle and v["site"] == site for v in viol):
+                viol.append({"property": "C17", "oracle": oracle, "site": site, "detail": detail})
+        for v in tr.violations:
+            if v["property"] == "C01":
+                add("unsat_constraint", {"op": v["site"].get("op")}, v["detail"])
+        calls = [s for s in plan["body"] if s["s"] == "snark_call"]
+        t_caught = {}
+        for (site, cls, msg) in tr.caught:
+            t_caught[site] = cls
+        nts = []
+        # call ids are assigned in order of appearance (rid increments once per call)
+        rid = 0
+        pub_index = 0
+        for st in plan["body"]:
+            if st["s"] != "snark_call":
+                continue
+            rid += 1
+            c = tr.calls.get(rid)
+            leaves = T.flat_leaves([_struct_to_py(a) for a in st["args"]])
+            types = sorted({l["lt"] for l in leaves})
+            site0 = {"arg_types": "+".join(types), "kwargs": bool(st.get("kwargs"))}
+            if st.get("kwargs"):
+                probes["kwargs_call"] = probes.get("kwargs_call", 0) + 1
+                if c is not None and "ret" in c:
+                    add("kwargs_accepted", site0, "a keyword argument was accepted by the wrapped function")
+                elif "ValueError" not in [cls for (_, cls, _) in tr.caught]:
+                    add("kwargs_accepted", site0, "keyword argument: expected ValueError, caught %r" % (tr.caught,))
+                continue
+            if c is None or "ret" not in c:
+                add("call_failed", site0, "wrapped call raised: %r" % (tr.caught[:2],))
+                continue
+            evs = rec.events[c["ev0"]:c["ev1"]]
+            pubs = [e[1] for e in evs if e[0] == "pub"]
+            exp_args = []
+            for l in leaves:
+                if l["lt"] == "I":
+                    exp_args.append(l["k"])
+                elif l["lt"] == "B":
+                    exp_args.append(int(l["k"]))
+                elif l["lt"] == "F":
+                    exp_args.append(int(l["k"] * res_scale))
+            nat = n_calls.get(rid)
+            if c["ret"] != nat:
+                add("return_ne_native", site0, "wrapped call returned %r, undecorated function gives %r" % (c["ret"], nat))
+            # secret result leaves in traversal order: those whose expression involves a leaf
+            exp_out = []
+            for leaf_expr, natv in zip(T.flat_leaves(_struct_to_py(st["ret"])), T.flat_leaves(_unplain(nat)) if nat is not None else []):
+                if _uses_leaf(leaf_expr):
+                    if isinstance(natv, float):
+                        exp_out.append(int(natv * res_scale))
+                    else:
+                        exp_out.append(int(natv))
+            got = [int(v) for v in pubs]
+            if got[:len(exp_args)] != exp_args:
+                add("public_order", dict(site0, part="arguments"),
+                    "public wires allocated for the arguments: %r, arguments in order: %r" % (got[:len(exp_args)], exp_args))
+            elif c["ret"] == nat and got[len(exp_args):] != exp_out:
+                add("public_order", dict(site0, part="results"),
+                    "public wires allocated for the results: %r, secret results in order: %r" % (got[len(exp_args):], exp_out))
+            elif c["ret"] == nat:
+                # tamper with each output's public value
+                npub_before = sum(1 for e in rec.events[:c["ev0"]] if e[0] == "pub")
+                base = len(exp_args) + npub_before
+                for j in range(len(exp_out)):
+                    saved = rec.pub[base + j]
+                    rec.pub[base + j] = saved + 1
+                    if not rec.unsat():
+                        add("output_not_tied", site0, "public output %d of the call can be changed without violating "
+                            "any constraint" % j)
+                    rec.pub[base + j] = saved
+                probes["outputs_tampered"] = probes.get("outputs_tampered", 0) + len(exp_out)
+            nts.append(E.sha((st["args"], st["ret"])))
+        res = self.result(tr, case, [])
+        res["violations"] = viol
+        res["probes"] = probes
+        res["nontrivial"] = None
+        res["nontrivial_list"] = nts
+        res["faults"] = {"tamper_public_output": probes.get("outputs_tampered", 0)}
+        return res
+
+    def shrink_candidates(self, case):
+        plan = case["plan"]
+        for i in reversed(range(len(plan["body"]))):
+            c = copy.deepcopy(case)
+            del c["plan"]["body"][i]
+            yield c
+        for i, st in enumerate(plan["body"]):
+            if st["s"] != "snark_call":
+                continue
+            for j in range(len(st["args"])):
+                # dropping an argument is only valid if no result leaf index breaks: keep simple - replace
+                # the result by a constant first
+                pass
+            c = copy.deepcopy(case)
+            c["plan"]["body"][i]["ret"] = {"k": 0}
+            yield c
+            if isinstance(st["ret"], dict) and st["ret"].get("struct"):
+                for it in st["ret"]["items"]:
+                    c = copy.deepcopy(case)
+                    c["plan"]["body"][i]["ret"] = it[1] if st["ret"]["struct"] == "dict" else it
+                    yield c
+
+
+def _struct_to_py(v):
+    if isinstance(v, dict) and v.get("struct") in ("list", "tuple"):
+        return [_struct_to_py(x) for x in v["items"]]
+    if isinstance(v, dict) and v.get("struct") == "dict":
+        return {k: _struct_to_py(x) for k, x in v["items"]}
+    return _Leaf(v)
+
+
+class _Leaf:
+    """A leaf of an argument / result structure (not a dict, so that flat_leaves stops here)."""
+
+    def __init__(self, d):
+        self.d = d
+
+    def __getitem__(self, k):
+        return self.d[k]
+
+    def __contains__(self, k):
+        return k in self.d
+
+    def get(self, k, default=None):
+        return self.d.get(k, default)
+
+
+def _unplain(x):
+    if isinstance(x, list) and x and x[0] in ("list", "tuple"):
+        return [_unplain(y) for y in x[1:]]
+    if isinstance(x, list) and x and x[0] == "dict":
+        return {k: _unplain(v) for k, v in x[1:]}
+    return x
+
+
+def _uses_leaf(e):
+    if "leaf" in e:
+        return True
+    if "op" in e:
+        return _uses_leaf(e["a"]) or _uses_leaf(e["b"])
+    return False
+
+
+E.register(C17())
